@@ -32,13 +32,17 @@ class Clock:
         import aw_datastore.storages.sqlite as mod
 
         clock = self
-        base = datetime(2023, 11, 14, 22, 13, 20)
+        base = datetime(2023, 11, 14, 22, 13, 20, tzinfo=timezone.utc)
 
         class FakeDT(datetime):
             @classmethod
             def now(cls, tz=None):
+                # like the real datetime.now(): the same instant, as naive LOCAL wall-clock time without tz (the
+                # process's TZ applies) or as an aware time in tz
                 d = base + timedelta(microseconds=clock.us - CLOCK0)
-                return d if tz is None else d.replace(tzinfo=timezone.utc).astimezone(tz)
+                if tz is None:
+                    return d.astimezone().replace(tzinfo=None)
+                return d.astimezone(tz)
 
         self._mod = mod
         self._orig = mod.datetime
@@ -167,6 +171,26 @@ def apply_op(st, op, refs, own_ids):
 def run_history(case):
     """in-process run with the fake clock; after every op the own-connection view and the view of a
     fresh second connection"""
+    import time
+
+    from aw_datastore.storages import SqliteStorage
+
+    old_tz = os.environ.get("TZ")
+    if case.get("tz"):
+        os.environ["TZ"] = case["tz"]
+        time.tzset()
+    try:
+        return _run_history(case)
+    finally:
+        if case.get("tz"):
+            if old_tz is None:
+                os.environ.pop("TZ", None)
+            else:
+                os.environ["TZ"] = old_tz
+            time.tzset()
+
+
+def _run_history(case):
     from aw_datastore.storages import SqliteStorage
 
     d = storelib.tmp_root()
